@@ -51,6 +51,10 @@ def run(chk):
         r['mapping'][0][0] = r['mapping'][1][0]
         return r
     core.binding_demo(chk, 'bind-perm', 'Trace_Align', 'Trace_Align.cfg', good, corrupt, 'perm', candidates=goods[1:])
+    # helpers the aligners build on (interleave, sample_random_mapping, ...): Utils.tla
+    chk.mc('layout-helpers', 'MC_Utils', 'MC_Utils.cfg', workers=8)
+    urecs = core.run_driver('utils', tier=chk.tier, seed=chk.seed)
+    chk.validate('layout-helpers', 'Trace_Utils', 'Trace_Utils.cfg', urecs, driver='utils', jobs=6)
     chk.assumptions = ['row identity of masks is decided by byte equality of rows (driver)',
                        'scores of float matrices enter TLC as dense ranks (greedy) / exact Fraction gaps (optimal)']
 
